@@ -18,8 +18,9 @@ sys.path.insert(0, HERE)
 
 CHECKS = {
     'C01': ('checks.c01', 'C01'),
+    'C02': ('checks.tokedit', 'C02'),
     'C07': ('checks.store_check', 'C07'),
-    'C08': ('checks.store_check', 'C08'),
+    'C08': ('checks.c08', 'C08'),
     'C10': ('checks.replist_check', 'C10'),
     'C03': ('checks.replist_check', 'C03'),
     'C06': ('checks.replist_check', 'C06'),
